@@ -71,8 +71,8 @@ void h_close(void)
   exitcode = g_wstat >> 8; crashed = g_wstat & 127;
   ok = g_reaped && !crashed && exitcode == 0 && !flagerr0 && !g_put_failed && !g_flush_failed;
   V_ASSERT(!flagerr0 || !g_nul_attempted, "C07: the envelope terminator is never written after a failure (qmail-queue then sees a truncated envelope and queues nothing)");
-  V_ASSERT(r[0] != 0 || ok, "C07: success is reported only if qmail-queue was reaped, did not crash, exited 0 and nothing failed on the writer's side");
-  V_ASSERT(r[0] != 0 || g_nul_ok, "C07: success is reported only if the envelope terminator was written");
+  V_ASSERT(r[0] != 0 || ok, "C07,C14,C03: success is reported only if qmail-queue was reaped, did not crash, exited 0 and nothing failed on the writer's side");
+  V_ASSERT(r[0] != 0 || g_nul_ok, "C07,C14,C03: success is reported only if the envelope terminator was written");
   V_ASSERT(!ok || r[0] == 0, "C07: a message that was committed (exit 0, no failure) is acknowledged");
   V_ASSERT(r[0] == 0 || r[0] == 'D' || r[0] == 'Z', "C07: every failure text starts with D (permanent) or Z (temporary)");
   if (r[0] == 'D')
